@@ -1,2 +1,100 @@
-(** C05 - CC_Deque is an ideal double-ended sequence in every physical layout (statements only). *)
-From CC Require Import Base.Prelude Base.Alloc Generated.Status Deque.DequeModel.
+(** C05 - CC_Deque is an ideal double-ended sequence in every physical layout.
+    Only statements, each closed by [exact]; the proofs live in Deque/DequeProofs*.v.
+    State-level theorems quantify over every layout: any capacity 2^k (k <= 31), any [first], any fill
+    level, through the invariant [dq_inv]; [owns d a] says that the header and the buffer of [d] are
+    live blocks of the ledger [a] (needed because growth and trimming release the old buffer). *)
+From CC Require Import Base.Prelude Base.Alloc Base.AllocProofs Generated.Status Generated.Constants.
+From CC Require Import Deque.DequeModel Deque.DequeProofs Deque.DequeProofs2 Deque.DequeProofs3 Deque.DequeProofs4.
+Local Open Scope N_scope.
+
+(** The invariant (capacity = 2^k = number of allocated slots, cursors in range, last = (first + size)
+    mod capacity, live slots written) is preserved by every operation; for add_at under the branch guard. *)
+Theorem C05_inv_preserved : forall d a o out d' a',
+  dq_inv d -> owns d a -> op_ok d o -> dq_step d a o = Ok (out, d', a') ->
+  dq_inv d' /\ owns d' a' /\ dq_hdr d' = dq_hdr d /\ dq_mem d' = dq_mem d.
+Proof. exact dq_step_inv. Qed.
+Print Assumptions C05_inv_preserved.
+
+(** Index i always refers to the i-th element from the front: get_at answers from the abstraction, for every
+    index of the whole domain, and reads slot (first + i) mod capacity. *)
+Theorem C05_index : forall d, dq_inv d ->
+  (forall i, dq_get_at d i = Ok (match getN (dq_abs d) i with
+                                 | Some v => (CC_OK, Some v) | None => (CC_ERR_OUT_OF_RANGE, None) end)) /\
+  (forall i, i < dq_size d ->
+     phys d i = (dq_first d + i) mod dq_cap d /\ getN (dq_slots d) (phys d i) = Some (getN (dq_abs d) i)) /\
+  lenN (dq_abs d) = dq_size d.
+Proof. exact dq_index. Qed.
+Print Assumptions C05_index.
+
+(** Every operation except add_at: no fault, the invariant again, and status, out-values and content are
+    those of the ideal list - or, for the allocating ones, CC_ERR_ALLOC with the whole state unchanged. *)
+Theorem C05_step_refines : forall d a o,
+  dq_inv d -> owns d a -> (forall x i, o <> OAddAt x i) ->
+  exists out d' a', dq_step d a o = Ok (out, d', a') /\ step_post d a o out d' a'.
+Proof. exact dq_step_refines_no_add_at. Qed.
+Print Assumptions C05_step_refines.
+
+(** add_at refines the ideal insertion in the branches index 0 / plain right shift / wrapped right shift with
+    two free slots (the model's own classifier, evaluated on the layout after a possible growth). *)
+Theorem C05_add_at_partial : forall d a x i,
+  dq_inv d -> owns d a -> add_at_branch_ok d i = true ->
+  exists out d' a', dq_step d a (OAddAt x i) = Ok (out, d', a') /\ step_post d a (OAddAt x i) out d' a'.
+Proof. exact deque_add_at_partial. Qed.
+Print Assumptions C05_add_at_partial.
+
+(** ... and not in general: a reachable state and an index in range where the result is not the ideal
+    insertion (capacity 8, [1;2;3;4] from slot 0, add_at 9 1 gives [1;2;9;3;4]). *)
+Theorem C05_add_at_refuted :
+  exists d a x i, dq_inv d /\ owns d a /\ i < dq_size d /\
+    exists d' a', dq_add_at d x i a = Ok (CC_OK, d', a') /\ dq_abs d' <> ins (dq_abs d) i x /\
+                  add_at_branch_ok d i = false.
+Proof. exact deque_add_at_refuted. Qed.
+Print Assumptions C05_add_at_refuted.
+
+(** Growth, trimming and copying preserve the element order (and the invariant); a copy holds the
+    [cp] images in source order. *)
+Theorem C05_growth_trim_copy_preserve : forall d a, dq_inv d -> owns d a ->
+  (forall st d' a', dq_expand d a = Ok (st, d', a') ->
+     dq_inv d' /\ dq_abs d' = dq_abs d /\ owns d' a' /\ (st = CC_OK -> dq_cap d' = 2 * dq_cap d) /\ (st <> CC_OK -> d' = d)) /\
+  (forall st d' a', dq_trim d a = Ok (st, d', a') ->
+     dq_inv d' /\ dq_abs d' = dq_abs d /\ owns d' a' /\ (st = CC_OK \/ st = CC_ERR_ALLOC /\ d' = d) /\
+     (st = CC_OK -> dq_cap d' = if dq_cap d =? dq_size d then dq_cap d else upper_pow_two (dq_size d))) /\
+  (forall cp st d2 a', dq_copy d cp a = Ok (st, Some d2, a') ->
+     dq_inv d2 /\ dq_abs d2 = copy_image cp (dq_abs d) /\ owns d2 a' /\ owns d a' /\ dq_cap d2 = dq_cap d /\ dq_mem d2 = dq_mem d).
+Proof. exact growth_trim_copy_preserve. Qed.
+Print Assumptions C05_growth_trim_copy_preserve.
+
+(** upper_pow_two (the or-shift cascade) returns the least power of two >= n for 0 < n <= MAX_POW_TWO. *)
+Theorem C05_upper_pow_two : forall n, 0 < n -> n <= MAX_POW_TWO ->
+  exists k, k <= 31 /\ upper_pow_two n = 2 ^ k /\ n <= 2 ^ k /\ forall k', n <= 2 ^ k' -> k <= k'.
+Proof. exact upper_pow_two_spec. Qed.
+Print Assumptions C05_upper_pow_two.
+
+(** Every history from cc_deque_new_conf, for every configured capacity (0, powers of two or not, beyond
+    MAX_POW_TWO), every allocator family and every refusal pattern: no fault, and the outputs and the final
+    content are those of the ideal list run, with CC_ERR_ALLOC answers as stutters.  [ops_ok] restricts
+    add_at to its correct branches along the run; histories without add_at satisfy it ([no_add_at_ok]). *)
+Theorem C05_run_refines : forall mem capacity a ops st d a1,
+  ledger_ok a -> 0 < next_id a ->
+  dq_new_conf mem capacity a = Ok (st, Some d, a1) -> ops_ok d a1 ops ->
+  dq_inv d /\ dq_abs d = [] /\
+  exists outs d' a', dq_run d a1 ops = Ok (outs, d', a') /\ dq_inv d' /\ owns d' a' /\
+                     (outs, dq_abs d') = spec_run [] ops (map is_alloc_err outs).
+Proof. exact dq_new_run_refines. Qed.
+Print Assumptions C05_run_refines.
+
+Theorem C05_run_no_add_at : forall ops, no_add_at ops -> forall d a, ops_ok d a ops.
+Proof. exact no_add_at_ok. Qed.
+Print Assumptions C05_run_no_add_at.
+
+(** Non-vacuity: an exactly full, wrapped layout (capacity 4, first = 3) satisfies the invariant. *)
+Example C05_inv_nonvacuous :
+  dq_inv {| dq_size := 4; dq_cap := 4; dq_first := 3; dq_last := 3;
+            dq_slots := [Some 12; Some 13; Some 14; Some 11]; dq_hdr := 1; dq_buf := 2; dq_mem := Conf |}.
+Proof.
+  constructor.
+  - constructor; cbn; try lia; try reflexivity. exists 2. split; [lia|reflexivity].
+  - cbn [dq_size dq_first dq_cap dq_slots]. intros i Hi.
+    assert (H : i = 0 \/ i = 1 \/ i = 2 \/ i = 3) by lia.
+    destruct H as [ -> | [ -> | [ -> | -> ] ] ]; vm_compute; eauto.
+Qed.
